@@ -201,6 +201,11 @@ embedded_pairing_core_arch_x86_64_bigint_768_square:
     adc %rbx, %rbx
     adc %r9, %r9
 
+    # The carry out of the doubling belongs to the most significant word
+    movq $0, %rax
+    adc %rax, %rax
+    push %rax
+
     # Add diagonal (r8 stores the carry)
     movq (%rsi), %rax
     mulq %rax
@@ -233,6 +238,8 @@ embedded_pairing_core_arch_x86_64_bigint_768_square:
     add %rax, %r9
     movq %r9, 80(%rdi)
     adc $0, %rdx
+    pop %rax
+    add %rax, %rdx
     movq %rdx, 88(%rdi)
 
     pop %r15
